@@ -74,6 +74,7 @@ type Ctx struct {
 	Tier    string
 	Seed    int64
 	Root    string // /verif
+	OutRoot string // where evidence/ and replays/ are written
 	Scratch string
 	Driver  string
 	Level   string
@@ -138,6 +139,12 @@ func NewCtx(prop, tier string) *Ctx {
 	}
 	c.Scratch = d
 	c.loadFindings()
+	c.OutRoot = root
+	if repo := os.Getenv("VERIF_REPO"); repo != "" && repo != "/repo" {
+		// a trial against another checkout (seeded change): its evidence and
+		// replays must not overwrite those of the real tree
+		c.OutRoot = filepath.Join(os.TempDir(), "verif-trial")
+	}
 	return c
 }
 
@@ -167,6 +174,22 @@ func (c *Ctx) BuildDriver(race bool) (string, error) {
 		args = append(args, "-race")
 	}
 	outp := filepath.Join(c.Scratch, name)
+	if repo := os.Getenv("VERIF_REPO"); repo != "" && repo != "/repo" {
+		// build against another checkout of mkdb (used to try seeded changes
+		// in a scratch worktree without touching /repo)
+		gm, err := os.ReadFile(filepath.Join(c.Root, "harness", "go.mod"))
+		if err != nil {
+			return "", err
+		}
+		mf := filepath.Join(c.Scratch, "alt.mod")
+		if err := os.WriteFile(mf, []byte(strings.Replace(string(gm), "=> /repo", "=> "+repo, 1)), 0644); err != nil {
+			return "", err
+		}
+		if gs, err := os.ReadFile(filepath.Join(c.Root, "harness", "go.sum")); err == nil {
+			os.WriteFile(filepath.Join(c.Scratch, "alt.sum"), gs, 0644)
+		}
+		args = append(args, "-modfile="+mf)
+	}
 	args = append(args, "-o", outp, "./cmd/vdriver")
 	cmd := exec.Command("go", args...)
 	cmd.Dir = filepath.Join(c.Root, "harness")
@@ -257,7 +280,7 @@ func (c *Ctx) Violation(sig, what string, replay interface{}) {
 	if c.vioSigs[sig] > 3 {
 		return // do not flood: first three witnesses per signature
 	}
-	dir := filepath.Join(c.Root, "replays", c.Prop)
+	dir := filepath.Join(c.OutRoot, "replays", c.Prop)
 	os.MkdirAll(dir, 0755)
 	path := filepath.Join(dir, fmt.Sprintf("%d-%s-%d.json", c.Seed, sanitize(sig), c.vioSigs[sig]))
 	b, _ := json.MarshalIndent(map[string]interface{}{
@@ -350,9 +373,9 @@ func (c *Ctx) Finish(floors []Floor) int {
 		"wall_s":      wall,
 		"violations":  len(c.vioSigs),
 	}
-	os.MkdirAll(filepath.Join(c.Root, "evidence"), 0755)
+	os.MkdirAll(filepath.Join(c.OutRoot, "evidence"), 0755)
 	b, _ := json.MarshalIndent(ev, "", " ")
-	if err := os.WriteFile(filepath.Join(c.Root, "evidence", c.Prop+".json"), b, 0644); err != nil {
+	if err := os.WriteFile(filepath.Join(c.OutRoot, "evidence", c.Prop+".json"), b, 0644); err != nil {
 		fmt.Println("cannot write evidence:", err)
 	}
 	fmt.Printf("%s tier=%s seed=%d: evaluations=%d distinct_nontrivial=%d violations=%d known=%d inconclusive=%d wall=%.1fs\n",
@@ -437,8 +460,17 @@ func RunScript(bin, cwd string, ops []proto.Op, timeout time.Duration, env ...st
 		}
 	}()
 	rd := bufio.NewReaderSize(stdout, 1<<20)
+	total := 0
 	for {
 		line, err := rd.ReadBytes('\n')
+		total += len(line)
+		if total > 256<<20 {
+			// a defect can make mkdb return garbage of absurd size; the
+			// orchestrator must survive it
+			cmd.Process.Kill()
+			ro.ExitErr = "HARNESS: driver output exceeded 256 MiB; "
+			break
+		}
 		if len(line) > 0 {
 			if line[0] == 'B' && len(line) > 2 && line[1] == ' ' {
 				id, _ := strconv.Atoi(strings.TrimSpace(string(line[2:])))
